@@ -109,7 +109,7 @@ func (r *rng) genChain(wellFormed bool) (encCfg, []encFile) {
 	}
 	files := make([]encFile, n)
 	for i := range files {
-		cfg := mesgGenCfg{wellFormed: wellFormed, maxFields: 8, unknown: true, tsMode: r.intn(5)}
+		cfg := mesgGenCfg{wellFormed: wellFormed, maxFields: 8, unknown: true, tsMode: r.pick(0, 1, 2, 3, 4, 5, 5, 6)}
 		withDev := r.chance(1, 3) && ec.protoVer != proto.V1
 		msgs := r.genFit(cfg, 1+r.intn(10), withDev)
 		hp := proto.Version(0)
